@@ -181,7 +181,7 @@ def dedicated(ctx, rng):
     """Sparsity patterns that force zero creation, in all four dtypes."""
     sr = ctx.sr
     dt = rng.choice(["float32", "complex64", "complex128", "float64"])
-    sym = rng.choice(gen.SYMS5)
+    sym = gen.pick_sym(rng)
     ferm = rng.random() < 0.4
     vals = gen.Values(rng, "gauss", dt)
     idx = [gen.rand_index(sr, rng, sym, maxc=2, maxd=2, p_single=0.0, minc=2) for _ in range(4)]
@@ -240,7 +240,7 @@ def mixed_blocks(ctx, rng):
     relocating operation must keep every number exactly (compared with the complex128 twin),
     and nothing may discard an imaginary part."""
     sr = ctx.sr
-    sym = rng.choice(gen.SYMS5)
+    sym = gen.pick_sym(rng)
     ferm = rng.random() < 0.4
     idx = [gen.rand_index(sr, rng, sym, maxc=2, maxd=2, p_single=0.0, minc=2) for _ in range(rng.choice([3, 4]))]
     x = gen.make_array(sr, rng, sym, idx, fermionic=ferm, values=gen.Values(rng, "unique"), sparsity=rng.choice([0.0, 0.3, 0.5]), nphase=1, exotic=False)
@@ -337,6 +337,19 @@ def large_blocks(ctx, rng):
                 x.blocks[s_] = b.real.astype(dt)
             elif flavour == "zero-real-part":
                 x.blocks[s_] = (1j * b.imag).astype(dt)
+    if rng.random() < 0.3:
+        # identically zero rows / columns inside the blocks (an operator that annihilates some
+        # states; a product with a 0/1 diagonal)
+        for s_ in list(x.blocks):
+            b = np.array(x.blocks[s_])
+            if min(b.shape) >= 2:
+                if rng.random() < 0.7:
+                    b[rng.sample(range(b.shape[0]), rng.randint(1, b.shape[0] // 2))] = 0
+                if rng.random() < 0.5:
+                    b[:, rng.sample(range(b.shape[1]), rng.randint(1, b.shape[1] // 2))] = 0
+                x.blocks[s_] = b
+        flavour += "+null-rows-or-columns"
+        ctx.count("large", "null-rows-or-columns")
     ctx.count("large", f"{dt}:{flavour}")
     wit = {"dtype": dt, "data": flavour, "x": describe(x)}
     steps = [
@@ -374,7 +387,7 @@ def illcond_solve(ctx, rng):
     keeps the type of the data."""
     sr = ctx.sr
     dt = rng.choice(["float32", "float32", "complex64", "complex128", "float64"])
-    sym = rng.choice(gen.SYMS5)
+    sym = gen.pick_sym(rng)
     ferm = rng.random() < 0.4
     cs = rng.sample(gen.POOL[sym], rng.randint(1, min(3, len(gen.POOL[sym]))))
     d_ = rng.randint(2, 6)
@@ -469,7 +482,7 @@ def mixed_contraction(ctx, rng):
         fa, fb = rng.randint(0, 1), rng.randint(0, 1)
         kw = dict(na=ncon + fa, nb=ncon + fb, ncon=ncon, maxd=1, maxc=4 if sym in ("Z2Z2", "Z4") else (3 if sym == "U1" else 2), minc=4 if sym in ("Z2Z2", "Z4") else (3 if sym == "U1" else 2), p_single=0.0, sparsity=0.0)
     else:
-        sym = rng.choice(gen.SYMS5)
+        sym = gen.pick_sym(rng)
         kw = dict(maxnd=4, maxd=2, sparsity=rng.choice([0.0, 0.4]))
     _, _, kind = gen.pick_class(sr, rng, sym, ferm)
     a, b, axa, axb = gen.contractible_pair(sr, rng, sym, ferm, values=gen.Values(rng, "gauss", da), kind=kind, nphase=0, **kw)
